@@ -36,7 +36,17 @@ class D(Driver):
 
     def cases(self, tier, seed):
         n = 48 if tier == "quick" else 800
-        return [("ops", seed, k, 40) for k in range(n)]
+        cs = [("ops", seed, k, 40) for k in range(n)]
+        # every pathop call made in-pipeline while converting real and generated clipped / stroked documents
+        from picomon.gen import corpus
+
+        nf = len(corpus.files())
+        step = 8 if tier == "quick" else 1
+        for i in range(0, nf, 10 * step):
+            cs.append(("pipeline_corpus", i, min(nf, i + 10), 0))
+        for k in range(4 if tier == "quick" else 60):
+            cs.append(("pipeline_gen", seed, k, 6))
+        return cs
 
     def setup_worker(self, tier, seed):
         boolmon.install()
@@ -44,10 +54,34 @@ class D(Driver):
 
         self.SP, self.T = SP, T
 
+    def _pipeline(self, case, res):
+        from picomon import conv
+        from picomon.gen import corpus, docs as gd
+
+        boolmon.STATE["cap"] = None
+        docs = []
+        if case[0] == "pipeline_corpus":
+            docs = [open(f).read() for f in corpus.files()[case[1]:case[2]]]
+        else:
+            rng = random.Random(f"C13-pipe-{case[1]}-{case[2]}")
+            for _ in range(case[3]):
+                docs.append(gd.clipped(rng, max_depth=2)[0] if rng.random() < 0.6 else gd.stroke_doc(rng)[0])
+        for d in docs:
+            boolmon.STATE["n"] = 0
+            boolmon.STATE["cap"] = 40  # per document
+            st, out = conv.convert(d)
+            res["evals"] += 1
+            bump(res["features"], "pipeline_documents")
+            bump(res["counters"], "pipeline_" + st)
+        boolmon.STATE["cap"] = None
+
     def run_case(self, case):
+        res = new_result()
+        if case[0].startswith("pipeline"):
+            self._pipeline(case, res)
+            return self._collect(res)
         _, seed, k, n = case
         rng = random.Random(f"C13-{seed}-{k}")
-        res = new_result()
         SP, T = self.SP, self.T
         for i in range(n):
             nop = rng.choice((1, 2, 2, 2, 3, 3, 4))
@@ -94,6 +128,9 @@ class D(Driver):
                 bump(res["counters"], "exception:" + type(e).__name__)
             if res["sample"] is None and nop >= 2:
                 res["sample"] = {"op": op, "level": level, "rules": rules, "operands": [gp.render(o) for o in outs]}
+        return self._collect(res)
+
+    def _collect(self, res):
         for ev in events.drain():
             res["viol"].append(dict(rule=ev["rule"], sig=ev["sig"], mech=ev.get("mech"), msg=ev["msg"], replay=ev.get("replay")))
         for kk, v in events.take_counts().items():
